@@ -34,6 +34,9 @@ RULE = (
     "when a concatenation has >= 2 non-empty pieces; distinct by content hash"
 )
 PARTIAL = [
+    "a boolean index array on IRREGULAR data is read by the code as the integers 0 / 1 (`labels[int(o)]`); mirrored by the "
+    "model (`Comp.getMask`), not judged — the property's index kinds for irregular data are int / slice / integer array; "
+    "on dense and basis data boolean masks have NumPy semantics and are judged (`mask_select`)",
     "numeric results of the analysis methods on subsets are compared implementation-vs-implementation (subset vs twin); "
     "the model covers which observations / labels a result is keyed by, not the smoothers themselves",
     "an index array with repeated entries on irregular data keeps one observation per label (a dictionary cannot hold "
@@ -290,6 +293,8 @@ def obj_tokens(o):
 
 
 def index_tokens(ix):
+    if ix[0] == "m":
+        return [cu.nv([1 if b else 0 for b in ix[1]])]
     if ix[0] == "i":
         return ["i", str(ix[1])]
     if ix[0] == "s":
@@ -298,6 +303,8 @@ def index_tokens(ix):
 
 
 def py_index(ix):
+    if ix[0] == "m":
+        return np.array([bool(b) for b in ix[1]], dtype=bool)
     if ix[0] == "i":
         return int(ix[1])
     if ix[0] == "s":
@@ -382,7 +389,11 @@ def _select_desc(o, ix):
     def sel(c):
         ids, labels = comp_ids(c), comp_labels(c)
         pos = list(range(len(ids)))
-        if ix[0] == "i":
+        if ix[0] == "m":
+            if ix[1] and len(ix[1]) != len(pos):      # NumPy lets an empty boolean array through
+                raise IndexError("boolean index did not match")
+            ps = [p for p, b in zip(pos, ix[1]) if b]
+        elif ix[0] == "i":
             ps = [pos[ix[1]]]
         elif ix[0] == "s":
             ps = pos[slice(*ix[1:])]
@@ -502,6 +513,12 @@ def _gen_cases(rng: Rng, tier):
     for _ in range(4000 if big else 320):
         o = rand_obj(rng)
         yield dict(kind="get", obj=o, ix=rand_index(rng, obj_nobs(o)))
+    # boolean masks (NumPy semantics on dense / basis data; irregular data read them as 0 / 1: mirrored only)
+    for _ in range(600 if big else 70):
+        o = rand_obj(rng, None, rng.choice(["D", "D", "B", "I", "M"]))
+        n = obj_nobs(o)
+        L = n if rng.random() < 0.8 else rng.choice([max(n - 1, 0), n + 1])
+        yield dict(kind="get", obj=o, ix=["m", [rng.random() < 0.5 for _ in range(L)]])
     # chained selection
     for _ in range(1500 if big else 120):
         o = rand_obj(rng, rng.randint(2, 6))
@@ -824,7 +841,7 @@ def model_lines(case, impl):
     if kind == "slice":
         return [f"slice {case['n']} {oi(case['a'])} {oi(case['b'])} {oi(case['c'])}"]
     if kind == "get":
-        return ["get " + " ".join(obj_tokens(case["obj"]) + index_tokens(case["ix"]))]
+        return [("getm " if case["ix"][0] == "m" else "get ") + " ".join(obj_tokens(case["obj"]) + index_tokens(case["ix"]))]
     if kind == "iter":
         if "obj" in case:
             return []     # iteration of a multivariate object = integer indexing (`get`); judged by the oracle
@@ -939,6 +956,8 @@ def oracle(case, impl):
         return [dict(clause="runs", entry=case["kind"], msg=f"crash {impl['__crash__']}: {impl.get('msg')} {impl.get('tb', '')[-300:]}")]
     kind = case["kind"]
     vs = []
+    if kind == "get" and case["ix"][0] == "m" and any(c[0] == "I" for c in ([case["obj"][1]] if case["obj"][0] == "U" else case["obj"][1])):
+        return vs      # boolean masks on irregular data: mirrored by the model, not judged (see PARTIAL)
     if kind == "get":
         o, ix = case["obj"], case["ix"]
         entry = {"D": "DenseFunctionalData.__getitem__", "I": "IrregularFunctionalData.__getitem__",
